@@ -266,32 +266,27 @@ struct _result_and_unhandled_exception final {
     }
 
     decltype(auto) result() noexcept(nothrow) {
-      if constexpr (nothrow) {
-        return std::move(result_).get();
-      } else {
+      if constexpr (!nothrow) {
         if (result_.state_ == _state::exception) {
           std::rethrow_exception(std::move(result_.exception_).get());
         }
-
-        UNIFEX_ASSERT(result_.state_ == _state::value);
-        return std::move(result_.value_).get();
       }
+
+      UNIFEX_ASSERT(result_.state_ == _state::value);
+      return std::move(result_.value_).get();
     }
 
     template <typename... Args>
     // todo: consider if this should be nothrow or not
     void set_value(Args&&... values) {
-      if constexpr (nothrow) {
-        result_.construct(static_cast<Args&&>(values)...);
-      } else {
-        this->result_.reset_value();
-        unifex::activate_union_member(
-            this->result_.value_, static_cast<Args&&>(values)...);
-        this->result_.state_ = _state::value;
-      }
+      this->result_.reset_value();
+      unifex::activate_union_member(
+          this->result_.value_, static_cast<Args&&>(values)...);
+      this->result_.state_ = _state::value;
     }
 
-    std::conditional_t<nothrow, manual_lifetime<T>, _expected<T>> result_;
+    // _expected<T> destroys the stored result (if any) with the promise
+    _expected<T> result_;
   };
 };
 
